@@ -27,6 +27,7 @@ EXPLANATION = (
     "expression, nested function) that outlives a loop captures a variable the loop rebinds, and no loop variable is read after "
     "its loop as if it were the last element. N7 descendants/leaves keep the order of PreOrderIter(self) (no reordering call "
     "on the way to the returned tuple). Not decided: that height, depth, siblings, commonancestors … compute the right value."
+    " Added in rounds 15-18: N2 `root` climbs while the parent `is not None` (a hasattr climb steps onto the None of a detached root); N6 no integer is compared with `is`; N7 `leaves` collected with an explicit work list is decided by the discipline of the list (same end + children reversed = pre-order)."
 )
 ASSUMPTIONS = ["user node classes do not define the navigation names themselves", "getattr/len/tuple/reversed/enumerate/zip/max are pure"]
 UTIL = "anytree/util/__init__.py"
@@ -400,6 +401,17 @@ def run(ctx):
         if f in seen_f or f.is_lambda:
             continue
         seen_f.add(f)
+        for node in ast.walk(f.node):
+            # identity of integers is an accident of the interpreter's small-int cache: `idx is len(xs) - 1` holds up to 256 only
+            if isinstance(node, ast.Compare) and any(isinstance(o_, (ast.Is, ast.IsNot)) for o_ in node.ops):
+                for x_ in [node.left] + list(node.comparators):
+                    if (isinstance(x_, ast.BinOp) and isinstance(x_.op, (ast.Add, ast.Sub, ast.Mult, ast.FloorDiv, ast.Mod))) \
+                            or (isinstance(x_, ast.Call) and norm(x_.func) == "len") \
+                            or (isinstance(x_, ast.Constant) and isinstance(x_.value, int) and not isinstance(x_.value, bool)):
+                        ctx.viol("N6", f, node, "`%s` compares an integer by identity: equal numbers are the same object only inside the "
+                                 "interpreter's small-integer cache (-5..256), so the test fails for larger positions / counts" % norm(node)[:60],
+                                 construct="%s: integer compared with `is`" % f.qual)
+                        break
         for why, node in _late_binding(f.node):
             ctx.viol("N6", f, node, why)
         for why, node in _loop_variable_leaks(f.node):
